@@ -111,9 +111,9 @@ impl Check for C01 {
     }
     fn cases(&self, thorough: bool) -> usize {
         if thorough {
-            400_000
+            4_000_000
         } else {
-            6_000
+            40_000
         }
     }
     fn fixed_cases(&self, _thorough: bool) -> Vec<Case> {
@@ -337,9 +337,9 @@ impl Check for C04 {
     }
     fn cases(&self, thorough: bool) -> usize {
         if thorough {
-            500_000
+            10_000_000
         } else {
-            8_000
+            100_000
         }
     }
     fn generate(&self, d: &mut Dec, thorough: bool) -> Case {
@@ -359,9 +359,9 @@ impl Check for C05 {
     }
     fn cases(&self, thorough: bool) -> usize {
         if thorough {
-            500_000
+            10_000_000
         } else {
-            8_000
+            100_000
         }
     }
     fn generate(&self, d: &mut Dec, thorough: bool) -> Case {
@@ -570,9 +570,9 @@ impl Check for C07 {
     }
     fn cases(&self, thorough: bool) -> usize {
         if thorough {
-            1_000_000
+            6_000_000
         } else {
-            20_000
+            100_000
         }
     }
     fn hang_is_violation(&self) -> bool {
